@@ -564,9 +564,14 @@ func m4Valid(r *rng, s *sink) (*m4Tables, []byte) {
 }
 
 func m4Break(r *rng, t *m4Tables, s *sink) {
-	k := r.intn(14)
+	k := r.intn(15)
 	s.count(fmt.Sprintf("m4.break.%d", k))
 	switch k {
+	case 14:
+		// tables that claim billions of samples (uniform size, one huge run) against a short stts:
+		// an error after a few samples, not a walk through all of them
+		t.uniform, t.sizes, t.sampleNr = pick(r, []uint32{8, 0, 16}), nil, pick(r, []uint32{0xFFFFFFFF, 0x7FFFFFFF, 100000000})
+		t.stsc = [][2]uint32{{1, pick(r, []uint32{0xFFFFFFFF, 1, 0x7FFFFFFF})}}
 	case 0:
 		t.ts = 0
 	case 1:
